@@ -21,6 +21,7 @@ PROPERTY = 'C13'
 LEVEL = 'proof'
 FUNCTIONS = ['emd.cycles.is_good', 'emd.cycles.get_cycle_vector', 'emd.cycles.Cycles.__init__', 'emd._cycles_support.make_slice_cache', 'emd.support.ensure_2d (inlined)', 'emd.support.ensure_equal_dims (inlined)']
 ASSUMPTIONS = C12.ASSUMPTIONS[:3] + [
+    'units `unwrapped phase`: some sample lies beyond 2 pi, emd.utils.wrap_phase is a contract stub (same shape, values in [0, 2pi); congruence proved under C09), boundaries / criteria / renumbering are stated about the re-wrapped array',
     'single column in the unbounded proof; mask is a boolean vector of the same layout',
     'is_good is replaced by its contract at the call site in get_cycle_vector (and verified against it separately)',
     'Cycles.__init__ unit: get_cycle_vector, ensure_vector, the slice caches and compute_cycle_metric are contract stubs; compute_cycle_metric(name, vals, func) is taken to apply func to the samples of each cycle (C14 contract of get_cycle_stat_from_samples; the slice-cache route is in the bounded stand-in); at least one cycle',
@@ -367,6 +368,9 @@ def _mk_container(c):
             if name != 'is_good':
                 return
             c.oblige('container:is_good-metric-computed-from-the-containers-phase', SBool(z3.BoolVal(vals is self.phase)), 'post')
+            # ... and that phase is the VALIDATED vector (ensure_vector flattens a column [n x 1]; a phase kept two-dimensional would make
+            # the monotonicity test of is_good run along the singleton axis)
+            c.oblige('container:phase-is-the-validated-vector', SBool(z3.BoolVal(self.phase is c.ghost.get('validated_phase'))), 'post')
             c.oblige('container:is_good-metric-in-cycle-mode-stored-as-int', SBool(z3.BoolVal(mode == 'cycle' and (dtype is int or dtype is verify.s_int))), 'post')
             got = func(seg)
             spec = good_spec(lambda i: seg.elem(i), z3.IntVal(0), n, EDGE)
@@ -397,7 +401,12 @@ def _container_ns():
         return core.SArr((N, z3.IntVal(1)), lambda i, j: L(i), 'i')
     cs = type('cs', (), {'make_slice_cache': staticmethod(lambda cv: _Opaque('slice_cache')),
                          'make_aug_slice_cache': staticmethod(lambda sc, ph: _Opaque('aug_slice_cache'))})
-    return {'is_good': is_good_default_stub, 'get_cycle_vector': gcv_stub, 'ensure_vector': lambda xs, names, fn: xs[0], '_cycles_support': cs}
+    def ensure_vector_stub(xs, names, fn):
+        # contract of the validator (proved under C19): the same elements as a vector - a NEW object, so that "the validated phase" is identifiable
+        v = xs[0][:]
+        core.C().ghost['validated_phase'] = v
+        return v
+    return {'is_good': is_good_default_stub, 'get_cycle_vector': gcv_stub, 'ensure_vector': ensure_vector_stub, '_cycles_support': cs}
 
 
 def is_good_default_stub(phase, waveform=None, ret_all_checks=False, phase_edge=None, mode='cycle'):
